@@ -564,6 +564,14 @@ class GlueUnSerializer(object):
         return obj
 
     def _try_callbacks(self):
+        # Deferred callbacks may themselves load objects. While some object is
+        # still being constructed (is in _working) such a load can hit a
+        # "circular reference" half-way through another object's loader; the
+        # exception is swallowed below but the half-constructed object stays
+        # registered (e.g. a dataset without its key joins and metadata). The
+        # callbacks are therefore only tried once no construction is pending.
+        if self._working:
+            return
         for callback in self._callbacks[:]:
             try:
                 callback(self)
